@@ -1,3 +1,4 @@
+import Rare.Model.C05Spawner
 import Rare.Base.Proto
 import Rare.Model.C01
 import Rare.Model.AggLoopTrace
@@ -174,6 +175,9 @@ def handle : List String → String
   | "closeord" :: present :: missing :: _ :: _ :: rest =>   -- the same claim at the spawner's `c.close` point under a forced schedule; every reader was held once
     let dirs := match rest with | d :: _ => d.toNat! | [] => 0   -- directories: opened, first read fails (body `[opened, err]`)
     s!"ok lag=0 after=0 status=1 status_after=1 errors={missing.toNat! + dirs} bytes=1 ahead=0 held={present.toNat! + missing.toNat! + dirs}"
+  | "srccount" :: n :: missing :: ahead :: _ =>   -- `[read/total]` of the status line: the spawner LTS run to its close (Props status_total_complete)
+    let s := C05Spawner.runAll n.toNat! ahead.toNat! (min missing.toNat! n.toNat!)
+    s!"ok mono=1 bounded=1 final={if s.total > 1 then s!"{s.read}/{s.total}" else "-"}"
   | "sigagg" :: _ => "ok returned=1 input_exhausted=0 final_render=1 final_eq_sampled=1 whole_batches=1 late_renders=0 late_samples=0 excl_ok=1"
   | _ => "bad-op"
 
